@@ -401,6 +401,7 @@ func (ex *Exec) unop(in *ssa.UnOp, r Term) {
 		}
 		v := c.load(ex.cur, x.T, et)
 		v.Typ = in.Type()
+		c.assume(imp(r, ex.v.wfAssume(c, v)))
 		ex.set(in, v)
 	case token.NOT:
 		ex.set(in, boolVal(not(x.T)))
